@@ -14,7 +14,12 @@ RULE = ("(1) every message actually sent by the 11 algorithms in real runs under
         "graph models built by the real builders from generated DCOPs (matrix and expression constraints, variables with "
         "cost dicts / expressions, int/str/float domains) inside DeployMessage; (4) every orchestration message type with "
         "generated contents (int-keyed dicts, tuples, nested lists, metrics); (5) AgentDef pickle round trip (name, extra "
-        "attributes, hosting_cost(*), route(*), default_route); non-trivial = object with a nested structure (relation, "
+        "attributes, hosting_cost(*), route(*), default_route); (6) every class built by message_type in the algorithm, "
+        "infrastructure and replication modules, instantiated and decoded in one process in random order (classes "
+        "sharing a type name must keep their own fields); domains and tuples of 11-14 elements; (7) real HTTP loopback: "
+        "two Agents with HttpCommunicationLayer on 127.0.0.1, harvested and generated messages posted on one for a "
+        "computation of the other, compared after requests.post -> MPCHttpHandler -> from_repr -> Messaging queue "
+        "(content, priority, sender, destination); non-trivial = object with a nested structure (relation, "
         "computation definition, dict or path table); distinct by hash(type, encoded form)")
 
 
@@ -270,6 +275,99 @@ def same_name_problems(rng, R):
     return problems
 
 
+# ------------------------------------------------------------------ (4c) real HTTP loopback
+def _free_http_layer(rng):
+    from pydcop.infrastructure.communication import HttpCommunicationLayer
+    import os
+
+    for attempt in range(40):
+        port = 20000 + ((os.getpid() * 7 + rng.randrange(0, 20000)) % 30000)
+        try:
+            return HttpCommunicationLayer(("127.0.0.1", port), on_error="fail")
+        except OSError:
+            continue
+    return None
+
+
+def http_loopback_problems(rng, R):
+    """two real Agents (threads not started) with real HttpCommunicationLayers on 127.0.0.1: messages harvested from
+    algorithm runs, from the replication / discovery harness and every message_type class are posted on A for a
+    computation hosted on B, travel through requests.post -> MPCHttpHandler -> from_repr -> B's Messaging queue, and
+    are compared with what was sent (content, message type priority, sender, destination, order)"""
+    from pydcop.infrastructure.agents import Agent
+
+    problems = []
+    ca, cb = _free_http_layer(rng), None
+    if ca is None:
+        R.bump("http", "no-free-port")
+        return problems
+    try:
+        cb = _free_http_layer(rng)
+        if cb is None:
+            R.bump("http", "no-free-port")
+            return problems
+        A, B = Agent("pvA", ca), Agent("pvB", cb)
+        A.discovery.register_computation("src", "pvA", A.address, publish=False)
+        A.discovery.register_computation("sink", "pvB", B.address, publish=False)
+        B.discovery.register_computation("sink", "pvB", B.address, publish=False)
+        msgs = []
+        for mn, attr, cls, fields in message_type_classes():
+            try:
+                msgs.append(cls(**{f: rng.choice([0, 1, "x", 2.5, True, None, [1, 2], "v3"]) for f in fields}))
+            except Exception:
+                pass
+        rng.shuffle(msgs)
+        msgs = msgs[:25]
+        try:
+            from pv.checks import c25
+
+            msgs += list(c25.harvest_messages(rng))[:25]
+        except Exception as e:
+            R.bump("harvest_errors", "%s: %s" % (type(e).__name__, str(e)[:80]))
+        # algorithm messages of one generated run
+        algo = rng.choice(c10.ALGOS)
+        case = algo_case(rng, algo)
+        harvested = []
+        try:
+            dcop = gen.build_dcop(case, "dict")
+            comps, _, _ = detsched.build_computations(algo, dcop, params=c10.make_params(rng, algo))
+            pool = detsched.Pool(rng.randrange(1 << 30))
+            pool.observers.append(lambda kind, data: harvested.append(data[2]) if kind == "send" and len(harvested) < 30 else None)
+            for c in comps:
+                pool.add(c)
+            pool.run(200)
+        except Exception:
+            pass
+        msgs += harvested
+        sent = []
+        for m in msgs:
+            prio = rng.choice([5, 10, 15, 20])
+            try:
+                A._messaging.post_msg("src", "sink", m, prio)
+            except Exception as e:
+                problems.append(("http:send-exception:%s:%s" % (type(m).__name__, type(e).__name__), "%r: %s" % (m, str(e)[:200])))
+                continue
+            full, _ = B._messaging.next_msg(2.0)
+            R.count("http_messages_sent")
+            if full is None:
+                problems.append(("http:message-not-received:%s" % type(m).__name__, "%r posted on pvA never reached pvB's queue" % (m,)))
+                continue
+            if full.src_comp != "src" or full.dest_comp != "sink" or full.msg_type != prio:
+                problems.append(("http:envelope-differs", "sent src->sink prio %r, received %s->%s prio %r" % (prio, full.src_comp, full.dest_comp, full.msg_type)))
+            d = deepeq.deep_diff(m, full.msg, "http[%s]" % type(m).__name__)
+            if d:
+                problems.append(("http:%s:differs-after-http" % type(m).__name__, d[:400]))
+        R.bump("http", "loopback-run")
+    finally:
+        for c in (ca, cb):
+            try:
+                if c is not None:
+                    c.shutdown()
+            except Exception:
+                pass
+    return problems
+
+
 # ------------------------------------------------------------------ harvest from discovery / replication harness
 
 def infra_harvest_problems(rng, R):
@@ -384,6 +482,8 @@ def worker(job):
             sample = {"kind": "computation definitions", "case": case} if i % 25 == 2 else None
         elif kind == 3:
             problems = same_name_problems(rng, R) + orchestration_problems(rng, R) + infra_harvest_problems(rng, R)
+            if (i // 5) % 6 == 0:
+                problems += http_loopback_problems(rng, R)
             sig = common.stable_hash(["infra", i, seed])
         else:
             problems = agentdef_problems(rng, R)
